@@ -29,6 +29,9 @@ FLOORS = {'quick': {'conclusive': 250, 'distinct_nontrivial': 100,
 CASE_TIMEOUT = {'quick': 120, 'thorough': 300}
 
 
+# appended to RULE in the evidence (vlib/runner.py)
+RULE_ADDENDUM = 'Added in round 5: node / link names that contain the prefixes the implementation uses internally (N_, L_).'
+
 def n_cases(tier):
     return 400 if tier == 'quick' else 15000
 
